@@ -9,10 +9,17 @@ META = {
     "undecided_part": "probabilistic part of the property (tails, wide damage); damage inside the 32-byte header other than magic/version/section_count",
 }
 CRC = "harness/crc_h.c"
+import os, sys
+sys.path.insert(0, os.path.dirname(os.path.abspath(__file__)))
 
 
 def obligations(repo):
-    obs = []
+    import c13
+    # C12.deser.<kind>: the loader under contract (gate: header + checksum over exactly the body, verified before
+    # anything is built; dir: every directory entry of an accepted file lies inside the file) - same harness as C13.deser.*
+    obs = c13.loader_obligations("C12")
+    obs.append(dict(id="C12.hdr", prop="C12", harness="harness/nvm_loader_h.c", entry="h_hdr", enforce="nvm_validate_header",
+                    unwind=6, strength="U", functions=["nvm_validate_header"], must_have=[r"nvm_validate_header\.postcondition"], min_checks=5))
     for e, strength, unw, extra in [("h_L0", "U", 257, {}), ("h_L1", "U", 257, {}), ("h_L2", "U", 257, {}), ("h_L3", "U", 257, {})]:
         obs.append(dict(id="C12.crc." + e[2:], prop="C12", harness=CRC, entry=e, extract=["crc_step"],
                         unwindset=["crc32_init.0:257", "crc32_init.1:257", "spec_shift8.0:9"], strength="U",
